@@ -98,8 +98,10 @@ def cases(rng: random.Random, tier: str):
             else:
                 b = GE.gen_expr(rng, cfg)
             out.append({"kind": "equal", "a": e, "b": b, "seed": rng.randrange(1 << 30)})
-        else:
+        elif r < 0.96:
             out.append({"kind": "den", "e": e, "seed": rng.randrange(1 << 30)})
+        else:
+            out.append({"kind": "ws", "e": e})
     return out
 
 
@@ -192,6 +194,9 @@ def run_python(case):
                 fail = f"canonical_expr_equal({a}, {b}) is True but the expressions differ: {json.dumps(w, sort_keys=True)}"
         return {"out": out, "fail": fail, "nontrivial": bool(r) and case["a"] != case["b"],
                 "tags": _tags(case["a"], {"kind": kind, "outcome": out[0] if r is None else out[1]})}
+    if kind == "ws":   # the quantifier predicate itself: Python mirror vs Lean `WellScoped`
+        return {"out": ["ok", "true" if GE.well_scoped(case["e"]) else "false"], "fail": None, "nontrivial": False,
+                "tags": _tags(case["e"], {"kind": kind})}
     if kind == "den":
         val, _ = _den_python(case)
         return {"out": ["ok", [str(val.numerator), str(val.denominator)]], "fail": None, "nontrivial": GE.depth(case["e"]) >= 2,
@@ -238,6 +243,8 @@ def request(case):
         return C.enc(["expr", "canonicalize", case["e"], enc_ordering(case["ordering"])])
     if kind == "equal":
         return C.enc(["expr", "canonical_equal", case["a"], case["b"]])
+    if kind == "ws":
+        return C.enc(["expr", "well_scoped", case["e"]])
     if kind == "den":
         if any(isinstance(t, list) and t[0] == "Q" for t in GE.subterms(case["e"])):
             return None
